@@ -148,6 +148,21 @@ pub fn run(ctx: &Ctx) -> Report {
     });
     rep.absorb(r);
     rep.bound("special_casing_characters", Json::i(ns));
+    // (g) escape syntaxes: a backslash followed by every printable ASCII character (and a non-ASCII one), alone and followed by a value in the
+    //     bracket / digit forms other languages use (\u{..}, \x.., \NNN, \U........, \N{..}), for values on both sides of every boundary of
+    //     the Unicode scalar range (surrogates, > 10FFFF, > 32 bits) and of one / two bytes; plus unterminated and empty groups
+    const ESC_VALUES: [&str; 30] = ["", "0", "7", "00", "000", "033", "377", "400", "777", "7F", "80", "FF", "100", "7FF", "800", "D7FF", "D800", "d800", "00D800", "DBFF", "DC00", "DFFF", "E000", "FFFF", "10000", "10FFFF", "110000", "FFFFFFFF", "100000000", "zz"];
+    let esc_chars: Vec<char> = (0x21u8..0x7F).map(|b| b as char).chain(['é']).collect();
+    let r = sweep(ctx, esc_chars.len() as u64 * 30, 16, |i, acc| {
+        let (e, v) = (esc_chars[(i / 30) as usize], ESC_VALUES[(i % 30) as usize]);
+        for lit in [format!("\\{e}{v}"), format!("\\{e}{{{v}}}"), format!("\\{e}{{{v}"), format!("\\{e}({v})"), format!("\\{e}[{v}]"), format!("\\{e}<{v}>"), format!("a\\{e}{v}b"), format!("\\{e}{{{v}}}\\{e}{{{v}}}")] {
+            for t in [format!(".stringz \"{lit}\""), format!(".orig x3000\nS .stringz \"{lit}\" ; c\n.end\n")] {
+                acc.evals += 1; acc.transitions += 1; acc.nontrivial += 1; acc.count("escape_syntax_inputs", 1);
+                if let Some((sig, d)) = check(&t) { acc.violation(sig, sig_input(&t), format!("{d} on input {t:?}")); }
+            }
+        }
+    });
+    rep.absorb(r);
     // scale: 12 kinds of very long / very repetitive inputs x 6 sizes (255 .. 10^6), each evaluated in its own process
     let r = sweep(ctx, (GEN_KINDS.len() * GEN_N.len()) as u64, 1, |i, acc| {
         let (kind, n) = ((i as usize) / GEN_N.len(), GEN_N[(i as usize) % GEN_N.len()]);
